@@ -10,23 +10,35 @@ package zsimrt
 // cannot be used inside a synctest bubble (a goroutine waiting for it is not
 // "durably blocked", so the fake clock would stop whenever a lock is held
 // across a network wait). These replacements block on channels, which is
-// durable, and synchronise only through the primitive's own channel or
-// atomic word:
+// durable. Their internal synchronisation (channels, atomics) is hidden from
+// the detector with runtime.RaceDisable, and the edges the real primitives
+// give are declared explicitly, mirroring the annotations in package sync:
 //
-//   - Mutex: a buffered channel of capacity one (send = lock, receive = unlock;
-//     the k-th receive happens before the (k+1)-th send completes: the edge of
-//     a mutex, on that mutex only);
-//   - RWMutex: readers count under a small channel mutex, the first reader
-//     takes the writer lock and the last one releases it (readers are ordered
-//     among themselves, which the real RWMutex does not do: races between two
-//     read-lock holders are not seen);
-//   - Once, Cond, WaitGroup: built from the above and channel closes.
+//	Mutex     Unlock -> later Lock                      (on the mutex)
+//	RWMutex   Unlock -> later RLock and Lock; RUnlock -> later Lock
+//	          (readers are NOT ordered among themselves)
+//	WaitGroup Done   -> Wait return                     (Add/Done are not ordered among themselves)
+//	Once      end of f -> every later Do
+//	Cond      Signal/Broadcast -> the Wait it wakes (closing a channel)
+//
+// Internal bookkeeping is done with atomics only: with synchronisation events
+// disabled, plain memory shared between goroutines would be reported.
 
 import (
+	"runtime"
 	"sync"
 	"sync/atomic"
+	"unsafe"
 )
 
+const freeRunning = true
+
+func raceAcquire[T any](p *T)      { runtime.RaceAcquire(unsafe.Pointer(p)) }
+func raceRelease[T any](p *T)      { runtime.RaceRelease(unsafe.Pointer(p)) }
+func raceReleaseMerge[T any](p *T) { runtime.RaceReleaseMerge(unsafe.Pointer(p)) }
+
+// chanMutex is a lock whose waiting is a channel send. All of its operations
+// run with race synchronisation events disabled.
 type chanMutex struct {
 	ch atomic.Pointer[chan struct{}]
 }
@@ -42,11 +54,26 @@ func (m *chanMutex) c() chan struct{} {
 	return *m.ch.Load()
 }
 
-func (m *chanMutex) lock()   { m.c() <- struct{}{} }
-func (m *chanMutex) unlock() { <-m.c() }
+func (m *chanMutex) lock() {
+	c := m.c() // (creation of the channel is visible: its creator happens-before its users)
+	runtime.RaceDisable()
+	c <- struct{}{}
+	runtime.RaceEnable()
+}
+
+func (m *chanMutex) unlock() {
+	c := m.c()
+	runtime.RaceDisable()
+	<-c
+	runtime.RaceEnable()
+}
+
 func (m *chanMutex) tryLock() bool {
+	c := m.c()
+	runtime.RaceDisable()
+	defer runtime.RaceEnable()
 	select {
-	case m.c() <- struct{}{}:
+	case c <- struct{}{}:
 		return true
 	default:
 		return false
@@ -54,36 +81,71 @@ func (m *chanMutex) tryLock() bool {
 }
 
 // Mutex replaces sync.Mutex.
-type Mutex struct{ m chanMutex }
-
-func (m *Mutex) Lock()         { m.m.lock() }
-func (m *Mutex) Unlock()       { m.m.unlock() }
-func (m *Mutex) TryLock() bool { return m.m.tryLock() }
-
-// RWMutex replaces sync.RWMutex.
-type RWMutex struct {
-	w, r    chanMutex
-	readers int
+type Mutex struct {
+	m   chanMutex
+	sem byte // address the happens-before edges are declared on
 }
 
-func (m *RWMutex) Lock()   { m.w.lock() }
-func (m *RWMutex) Unlock() { m.w.unlock() }
+func (m *Mutex) Lock() {
+	m.m.lock()
+	raceAcquire(&m.sem)
+}
+
+func (m *Mutex) Unlock() {
+	raceRelease(&m.sem)
+	m.m.unlock()
+}
+
+func (m *Mutex) TryLock() bool {
+	if !m.m.tryLock() {
+		return false
+	}
+	raceAcquire(&m.sem)
+	return true
+}
+
+// RWMutex replaces sync.RWMutex (readers preference).
+type RWMutex struct {
+	w, r       chanMutex
+	readers    atomic.Int32
+	rsem, wsem byte
+}
+
+func (m *RWMutex) Lock() {
+	m.w.lock()
+	raceAcquire(&m.rsem)
+	raceAcquire(&m.wsem)
+}
+
+func (m *RWMutex) Unlock() {
+	raceRelease(&m.rsem)
+	m.w.unlock()
+}
+
 func (m *RWMutex) RLock() {
 	m.r.lock()
-	m.readers++
-	if m.readers == 1 {
+	runtime.RaceDisable()
+	first := m.readers.Add(1) == 1
+	runtime.RaceEnable()
+	if first {
 		m.w.lock()
 	}
 	m.r.unlock()
+	raceAcquire(&m.rsem)
 }
+
 func (m *RWMutex) RUnlock() {
+	raceReleaseMerge(&m.wsem)
 	m.r.lock()
-	m.readers--
-	if m.readers == 0 {
+	runtime.RaceDisable()
+	last := m.readers.Add(-1) == 0
+	runtime.RaceEnable()
+	if last {
 		m.w.unlock()
 	}
 	m.r.unlock()
 }
+
 func (m *RWMutex) RLocker() sync.Locker { return (*rlocker)(m) }
 
 type rlocker RWMutex
@@ -93,7 +155,7 @@ func (r *rlocker) Unlock() { (*RWMutex)(r).RUnlock() }
 
 // Once replaces sync.Once.
 type Once struct {
-	done atomic.Bool
+	done atomic.Bool // Store at the end of f / Load in every Do: the edge of sync.Once
 	m    chanMutex
 }
 
@@ -109,78 +171,115 @@ func (o *Once) Do(f func()) {
 	}
 }
 
-// Cond replaces sync.Cond.
+// Cond replaces sync.Cond. Waiters are kept in a lock-free stack of channels.
 type Cond struct {
-	L       sync.Locker
-	m       chanMutex
-	waiters []chan struct{}
+	L    sync.Locker
+	head atomic.Pointer[condWaiter]
+	m    chanMutex
+}
+
+type condWaiter struct {
+	ch   chan struct{}
+	next atomic.Pointer[condWaiter]
 }
 
 func NewCond(l sync.Locker) *Cond { return &Cond{L: l} }
 
 func (c *Cond) Wait() {
-	ch := make(chan struct{})
+	w := &condWaiter{ch: make(chan struct{})}
 	c.m.lock()
-	c.waiters = append(c.waiters, ch)
+	// append at the tail: Signal wakes the longest waiter first (the list is
+	// linked with visible atomics: a waiter's registration happens-before the
+	// Signal that finds it, as with a waiter and a signaller holding L)
+	if h := c.head.Load(); h == nil {
+		c.head.Store(w)
+	} else {
+		for h.next.Load() != nil {
+			h = h.next.Load()
+		}
+		h.next.Store(w)
+	}
 	c.m.unlock()
 	c.L.Unlock()
-	<-ch
+	<-w.ch
 	c.L.Lock()
 }
 
 func (c *Cond) Signal() {
 	c.m.lock()
-	if len(c.waiters) > 0 {
-		close(c.waiters[0])
-		c.waiters = c.waiters[1:]
+	h := c.head.Load()
+	if h != nil {
+		c.head.Store(h.next.Load())
 	}
 	c.m.unlock()
+	if h != nil {
+		close(h.ch)
+	}
 }
 
 func (c *Cond) Broadcast() {
 	c.m.lock()
-	for _, ch := range c.waiters {
-		close(ch)
-	}
-	c.waiters = nil
+	h := c.head.Load()
+	c.head.Store(nil)
 	c.m.unlock()
+	for ; h != nil; h = h.next.Load() {
+		close(h.ch)
+	}
 }
 
 // WaitGroup replaces sync.WaitGroup.
 type WaitGroup struct {
-	m       chanMutex
-	n       int
-	waiters []chan struct{}
+	n    atomic.Int64
+	sema atomic.Pointer[chan struct{}]
+	sem  byte
 }
 
 func (wg *WaitGroup) Add(delta int) {
-	wg.m.lock()
-	wg.n += delta
-	if wg.n < 0 {
-		wg.m.unlock()
+	if delta < 0 {
+		raceReleaseMerge(&wg.sem)
+	}
+	// the counter is hidden from the detector: Add and Done calls are not
+	// ordered among themselves
+	runtime.RaceDisable()
+	v := wg.n.Add(int64(delta))
+	runtime.RaceEnable()
+	if v < 0 {
 		panic("sync: negative WaitGroup counter")
 	}
-	if wg.n == 0 {
-		for _, ch := range wg.waiters {
-			close(ch)
+	if v == 0 {
+		// (the waiters' channel is published and taken with visible atomics)
+		if old := wg.sema.Swap(nil); old != nil {
+			close(*old)
 		}
-		wg.waiters = nil
 	}
-	wg.m.unlock()
 }
 
 func (wg *WaitGroup) Done() { wg.Add(-1) }
 
+func (wg *WaitGroup) counter() int64 {
+	runtime.RaceDisable()
+	defer runtime.RaceEnable()
+	return wg.n.Load()
+}
+
 func (wg *WaitGroup) Wait() {
-	wg.m.lock()
-	if wg.n == 0 {
-		wg.m.unlock()
-		return
+	for wg.counter() != 0 {
+		p := wg.sema.Load()
+		if p == nil {
+			c := make(chan struct{})
+			if !wg.sema.CompareAndSwap(nil, &c) {
+				continue
+			}
+			p = &c
+		}
+		// the counter may have reached zero before the channel was published
+		if wg.counter() == 0 {
+			break
+		}
+		<-*p
+		break
 	}
-	ch := make(chan struct{})
-	wg.waiters = append(wg.waiters, ch)
-	wg.m.unlock()
-	<-ch
+	raceAcquire(&wg.sem)
 }
 
 // Go is WaitGroup.Go (Go 1.25+).
@@ -191,5 +290,3 @@ func (wg *WaitGroup) Go(f func()) {
 		f()
 	}()
 }
-
-const freeRunning = true
